@@ -8,6 +8,7 @@ mod harness;
 mod mirigen;
 mod proj;
 mod rng;
+mod roundtrip;
 mod simdict;
 mod toksim;
 mod world;
@@ -27,6 +28,7 @@ fn main() {
         "toksim" => run_batch(&toksim::TokSim, &opts).exit,
         "buildsim" => run_batch(&buildsim::BuildSim, &opts).exit,
         "concsim" => run_batch(&concsim::ConcSim, &opts).exit,
+        "roundtrip" => run_batch(&roundtrip::RoundTripSim, &opts).exit,
         "dbgtok" => {
             // vsim dbgtok --replay file --text T --mode A
             let doc: serde_json::Value = serde_json::from_slice(&std::fs::read(opts.replay.as_ref().unwrap()).unwrap()).unwrap();
